@@ -147,8 +147,9 @@ func runCalcCase(c CalcCase, r *rand.Rand) []CalcObs {
 	var out []CalcObs
 	switch c.Kind {
 	case "delta":
-		// the same case at the unit scale and at a large scale (ratios stay exact)
-		for _, sc := range []int{1, 37} {
+		// the same case at the unit scale, at a large scale, and at the scale of a very large group (memory unit 1 TiB: request totals
+		// beyond 2^63 / 1e5 milli-bytes, where any widening of the code's integer arithmetic by a factor 100 wraps); ratios stay exact
+		for _, sc := range []int{1, 37, 1 << 20} {
 			cpuU, memU := int64(100*sc), int64(sc)<<20
 			o := CalcObs{Ev: "calc", Src: c.Src, Case: c, Scale: sc, Totals: [][2]int64{}, Styles: []int{}}
 			q := func(v int, u int64, milli bool) resource.Quantity {
